@@ -34,7 +34,7 @@ try:
         if not os.path.exists(out): return None
         raw = open(out, "rb").read()
         return [x.decode("utf-8", "surrogateescape") for x in raw.split(b"\0")[:-1]]
-    awkward = ["", " ", "a b", "'q'", '"dq"', "$HOME", "*", "a\nb", "héllo wörld", "-n", "--", "\\", "$(id)", ";", "a  b"]
+    awkward = ["", " ", "a b", "'q'", '"dq"', "$HOME", "*", "a\nb", "héllo wörld", "-n", "--", "\\", "$(id)", ";", "a  b", "@x", "@", "@two words", "mid@dle"]
     # 1. no shell: every argument byte for byte, for every list of up to 2 awkward arguments and the whole list at once
     lists = [[]] + [[a] for a in awkward] + [[a, b] for a in awkward[:6] for b in awkward[:6]] + [awkward]
     for flags in (["-n"], ["--shell=none"]):
